@@ -115,6 +115,16 @@ def run(tier):
         q["ops"] += [{"op": "liftfile", "file": "a"}, {"op": "copy", "src": "a", "dst": "b"}, {"op": "liftfile", "file": "b"}] + rd + rd_b
         q["model"] = progs.model_json(model)
         P.append(q)
+    # UTC tracks with more entries than one summary chunk holds (upper UTC levels exist in the source)
+    for cnt, udf in [(25, 10), (101, 10), (130, 0)] + ([(1001, 10), (2500, 15)] if thorough else []):
+        q = progs.utc_program(rng, len(P) + 1, cnt, udf, 16777216, nq=8)
+        k = next(i for i, o in enumerate(q["ops"]) if o["op"] == "wclose")
+        rd = q["ops"][k + 1:]
+        rd_b = copy.deepcopy(rd)
+        rd_b[0]["file"] = "b"
+        q["ops"] = q["ops"][:k + 1] + [{"op": "liftfile", "file": "a"}, {"op": "copy", "src": "a", "dst": "b"}, {"op": "liftfile", "file": "b"}] + rd + rd_b
+        q["kind"] = "c17-utc"
+        P.append(q)
     # deterministic probe of known finding C17-K1 (copy of a file that has omitted blocks)
     probe = [{"op": "wopen"}, {"op": "source", "id": 1, "name": ["lit", "s"]},
              {"op": "signal", "id": 1, "src": 1, "dt": "f32", "rate": 1000, "spd": 160, "sdf": 16, "eps": 10, "sumdf": 10, "name": ["lit", "x"], "units": ["lit", "u"]},
